@@ -11,6 +11,7 @@ use crate::identifiers::{ConnectionId, PlayerId, RequestId};
 /// InsIm Info -  a /i message from user to hosts Insim
 pub struct Iii {
     /// Non-zero if the packet is a packet request or a reply to a request
+    #[brw(pad_after = 1)]
     pub reqi: RequestId,
 
     /// Unique connection ID that the message was received from
